@@ -62,6 +62,13 @@ fn main() {
             println!("--- ui:\n{}", t.ui_str().unwrap_or("<none>"));
             println!("--- header:\n{}", t.header_str().unwrap_or("<none>"));
         }
+        Some("c07-fuzz") => {
+            // debugging aid: only the libFuzzer campaign of C07's thorough tier (QV_FUZZ_RUNS per job)
+            let env = Env::from_env(Some("thorough"));
+            let mut rr = common::RunResult::default();
+            checks::c07::run_fuzz_campaign(&env, &known, &mut rr);
+            println!("counters: {:?}\nknown hits: {:?}\nviolations: {:?}", rr.stats.counters, rr.stats.known_hits, rr.violations.iter().map(|v| (&v.failure.key, &v.failure.what)).collect::<Vec<_>>());
+        }
         Some("c07-input") => {
             // debugging aid: print the input a C07 choice sequence decodes to
             let file = args.get(2).cloned().unwrap_or_else(|| usage());
